@@ -136,7 +136,9 @@ func init() {
 // A script read through a *bytes.Reader is a list of well-formed items — data pushes (kind tkPush,
 // payload = blob of the pushed bytes) and other opcodes (kind tkOp) — followed by the end of the
 // script or by something malformed. ParsePushDataScript hands out the next item, reports
-// ErrNotPushOp for a non-push opcode, and any other error once the well-formed items are used up.
+// ErrNotPushOp for a non-push opcode, and another error once the well-formed items are used up:
+// io.EOF at a clean end, anything else at a malformation - after which the reader is positioned
+// inside the broken item and further calls return arbitrary items (ghost flag sdirty).
 
 const (
 	tkPush = 7
@@ -144,33 +146,46 @@ const (
 )
 
 func init() {
-	reg("github.com/tokenized/pkg/bitcoin.ParsePushDataScript", "next script item of the reader: a push (its data), a non-push opcode (ErrNotPushOp), or another error at the end / at a malformation; the stream advances by one item", readMods,
+	reg("github.com/tokenized/pkg/bitcoin.ParsePushDataScript", "next script item of the reader: a push (its data), a non-push opcode (ErrNotPushOp); after the well-formed items either the clean end (io.EOF, repeatedly) or a malformation (some other error) after which the reader sits inside the broken item and later calls return arbitrary items; the stream advances by one item", func(ms *ModSet, c *ssa.CallCommon) {
+		readMods(ms, c)
+		ms.add(KeyInfo{Key: "GH!sdirty", Ghost: "(Array Int Bool)"})
+	},
 		func(fr *Frame, st *State, c *ssa.CallCommon, args []Val, res ssa.Value) Val {
 			v := fr.v
 			stk, sn, sp := v.streamKeys()
+			dk := v.ghostKey("sdirty", "(Array Int Bool)")
 			id := args[0].T
 			pos := sel(v.heap(st, sp), id)
 			cnt := sel(v.heap(st, sn), id)
 			tok := sel(sel(v.heap(st, stk), id), pos)
-			avail := v.smt.define("ps.avail", "Bool", and("(<= 0 "+pos+")", "(< "+pos+" "+cnt+")"))
+			dirty := v.smt.define("ps.dirty", "Bool", sel(v.heap(st, dk), id))
+			avail := v.smt.define("ps.avail", "Bool", and(not(dirty), "(<= 0 "+pos+")", "(< "+pos+" "+cnt+")"))
+			atEnd := and(not(dirty), not(avail))
 			isPush := and(avail, eq("(tk.kind "+tok+")", fmt.Sprint(tkPush)))
 			isOp := and(avail, not(eq("(tk.kind "+tok+")", fmt.Sprint(tkPush))))
 			out := fr.freshResult(st, c, res)
 			errT := out.Tuple[2].T
 			notPush := v.sentinelTerm("github.com/tokenized/pkg/bitcoin.ErrNotPushOp")
+			eof := v.sentinelTerm("io.EOF")
 			v.smt.assert(implies(isPush, eq(errT, "(mk-iface 0 0)")))
 			v.smt.assert(implies(isOp, eq(errT, notPush)))
-			v.smt.assert(implies(not(avail), and(not(eq(errT, "(mk-iface 0 0)")), not(eq(errT, notPush)))))
-			// the data of a push: a fresh slice whose blob is the token's payload
+			v.smt.assert(implies(atEnd, and(not(eq(errT, "(mk-iface 0 0)")), not(eq(errT, notPush)))))
+			// the data of a push: a fresh slice whose blob is the token's payload; once the reader
+			// is inside a broken item the payload is whatever bytes happen to follow
 			blen := v.smt.declareFun("uf!blobLen", []string{"Int"}, "Int")
 			arr := v.newRef(st, "push")
-			payload := "(tk.val " + tok + ")"
+			junk := v.smt.fresh("ps.junk", "Int")
+			payload := v.smt.define("ps.payload", "Int", ite(dirty, junk, "(tk.val "+tok+")"))
 			v.setHeap(st, v.blobKey(), sto(v.heap(st, v.blobKey()), arr, payload))
 			data := out.Tuple[1].T
-			v.smt.assert(implies(isPush, or(and(eq(app(blen, payload), "0"), eq("(s.len "+data+")", "0")),
+			gotData := or(isPush, and(dirty, eq(errT, "(mk-iface 0 0)")))
+			v.smt.assert(implies(gotData, or(and(eq(app(blen, payload), "0"), eq("(s.len "+data+")", "0")),
 				and(eq("(s.arr "+data+")", arr), eq("(s.off "+data+")", "0"), eq("(s.len "+data+")", app(blen, payload)), eq("(s.cap "+data+")", app(blen, payload))))))
 			P := v.heap(st, sp)
 			v.setHeap(st, sp, ite(avail, sto(P, id, "(+ "+pos+" 1)"), P))
+			// a malformation (an error other than the clean end) leaves the reader inside the item
+			D := v.heap(st, dk)
+			v.setHeap(st, dk, ite(and(atEnd, not(eq(errT, eof))), sto(D, id, "true"), D))
 			return out
 		})
 	reg("github.com/tokenized/pkg/bitcoin.Hash160", "a fresh 20-byte slice whose blob is an uninterpreted function Hash160 of the argument's blob", func(ms *ModSet, c *ssa.CallCommon) {
